@@ -22,7 +22,7 @@ import re
 import vlib
 
 LEVEL = "model_checking"
-RUNS = {"quick": (72, 200), "thorough": (600, 2000)}
+RUNS = {"quick": (72, 200), "thorough": (2000, 8000)}
 
 
 def drive(ctx, binary, ntrace, ndiff, tag, extra_env=None):
